@@ -29,10 +29,10 @@ type Scenario struct {
 	// (which does not assume data-race freedom), then DPOR for at most DPORSeconds (0: until the
 	// deadline). The evidence reports the bound completed and whether DPOR finished.
 	DPORSeconds float64
-	C       int  // preemption bound (-1: unbounded)
-	F       int  // fault bound (Choose with cost, early timers)
-	HangOK  bool // the body being blocked at the end is not a violation by itself
-	PanicOK bool // an uncaught panic is not a violation by itself (the scenario inspects it)
+	C           int  // preemption bound (-1: unbounded)
+	F           int  // fault bound (Choose with cost, early timers)
+	HangOK      bool // the body being blocked at the end is not a violation by itself
+	PanicOK     bool // an uncaught panic is not a violation by itself (the scenario inspects it)
 	// Check is an additional oracle on the finished execution (runs outside the world).
 	Check func(r *vs.Result) []vs.Failure
 	// Nontrivial classifies an outcome for the evidence counts (default: >1 goroutine or a fault).
@@ -79,41 +79,41 @@ type Violation struct {
 }
 
 type Stats struct {
-	Scenario     string   `json:"scenario"`
-	Executions   int      `json:"executions"`
-	Complete     int      `json:"complete_executions"`
-	Pruned       int      `json:"pruned_executions"`
-	SleepBlocked int      `json:"sleep_blocked_executions"`
-	States       int      `json:"states"`
-	Transitions  int      `json:"transitions"`
-	HorizonHits  int      `json:"horizon_hits"`
-	Outcomes     int      `json:"distinct_outcomes"`
-	Nontrivial   int      `json:"distinct_nontrivial"`
-	MaxDepth     int      `json:"max_depth"`
-	BoundC       int      `json:"c_completed"`
-	BoundF       int      `json:"f"`
-	Exhaustive   bool     `json:"exhaustive"`
-	Capped       string   `json:"capped,omitempty"`
-	WallS        float64  `json:"wall_s"`
-	Sample       []string `json:"sample,omitempty"`
-	SampleTrace  []string `json:"sample_trace,omitempty"`
-	EngineError  string   `json:"engine_error,omitempty"`
+	Scenario     string      `json:"scenario"`
+	Executions   int         `json:"executions"`
+	Complete     int         `json:"complete_executions"`
+	Pruned       int         `json:"pruned_executions"`
+	SleepBlocked int         `json:"sleep_blocked_executions"`
+	States       int         `json:"states"`
+	Transitions  int         `json:"transitions"`
+	HorizonHits  int         `json:"horizon_hits"`
+	Outcomes     int         `json:"distinct_outcomes"`
+	Nontrivial   int         `json:"distinct_nontrivial"`
+	MaxDepth     int         `json:"max_depth"`
+	BoundC       int         `json:"c_completed"`
+	BoundF       int         `json:"f"`
+	Exhaustive   bool        `json:"exhaustive"`
+	Capped       string      `json:"capped,omitempty"`
+	WallS        float64     `json:"wall_s"`
+	Sample       []string    `json:"sample,omitempty"`
+	SampleTrace  []string    `json:"sample_trace,omitempty"`
+	EngineError  string      `json:"engine_error,omitempty"`
 	Violations   []Violation `json:"violations,omitempty"`
-	ViolationCnt int      `json:"violation_count"`
-	KnownCnt     int      `json:"known_count"`
-	DPORComplete bool     `json:"dpor_complete"`
+	ViolationCnt int         `json:"violation_count"`
+	KnownCnt     int         `json:"known_count"`
+	DPORComplete bool        `json:"dpor_complete"`
 }
 
 type chooser struct {
-	ex      *Explorer
-	prefix  []int
-	points  []point
-	usedC   int
-	usedF   int
-	c, f    int
-	replay  bool // pure replay: no cache, no pruning
-	err     string
-	newTr   int
+	ex     *Explorer
+	prefix []int
+	points []point
+	usedC  int
+	usedF  int
+	c, f   int
+	replay bool // pure replay: no cache, no pruning
+	err    string
+	newTr  int
 }
 
 type sleepEntry struct {
@@ -139,7 +139,6 @@ func dependent(a, b *sleepEntry) bool {
 	}
 	return false
 }
-
 
 func entryOf(w *vs.World, a vs.ThreadAlt) sleepEntry {
 	if a.Timer {
@@ -227,14 +226,14 @@ type budget struct{ c, f int32 }
 
 type Explorer struct {
 	surveySeen map[string]bool
-	sc       *Scenario
-	cache    map[uint64]budget
-	seen     map[uint64]struct{}
-	useCache bool
-	outcomes map[uint64]struct{}
-	nontriv  map[uint64]struct{}
-	Deadline time.Time
-	st       Stats
+	sc         *Scenario
+	cache      map[uint64]budget
+	seen       map[uint64]struct{}
+	useCache   bool
+	outcomes   map[uint64]struct{}
+	nontriv    map[uint64]struct{}
+	Deadline   time.Time
+	st         Stats
 }
 
 func outcomeHash(r *vs.Result) uint64 {
